@@ -358,6 +358,8 @@ type flags struct {
 	Acquired      bool  `json:"acquired"`
 	Released      bool  `json:"released"`
 	Claimed       bool  `json:"claimed"`
+	MesgType      string   `json:"-"`
+	Promises      []string `json:"-"`
 	Completed     bool  `json:"completed"`
 	LocksAffected int64 `json:"locksAffected"`
 	TasksAffected int64 `json:"tasksAffected"`
@@ -489,6 +491,11 @@ func (r *lreq) grpc(ctx context.Context, c *clients) (flags, error) {
 		res, err := c.tasks.ClaimTask(ctx, &pb.ClaimTaskRequest{Id: r.id, Counter: int32(r.counter), ProcessId: r.pid, Ttl: int32(r.ttl)})
 		if err == nil {
 			f.Claimed = res.GetClaimed()
+			f.MesgType = res.GetMesg().GetType()
+			for k := range res.GetMesg().GetPromises() {
+				f.Promises = append(f.Promises, k)
+			}
+			sort.Strings(f.Promises)
 		}
 		return f, err
 	case "CompleteTask":
